@@ -227,9 +227,13 @@ class Comparison:
             extra, missing = diff_bags(na, ne)
             exp_gens = [canon_gen(g, {}, 0) for g in ne[1]] if ne[0] == "bag" else [canon(ne, {}, 0)]
             imprecise = list(dict.fromkeys(na_.opaque + self.ev.problems))
-            if any(g[3] != g[3] for g in ()):  # pragma: no cover
-                pass
             cut = any("cut-short" in x for x in extra)
+            # definite, whatever else is imprecise: a `raise` inside a loop ends the loop at that element
+            in_loop = lambda n: [g for g in (n[1] if n[0] == "bag" else ()) if g[1][0] == "raise" and g[2] and g[1][1] != ("reraise",)]  # noqa: E731
+            if in_loop(na) and not in_loop(ne):
+                all_ok = False
+                g = in_loop(na)[0]
+                self.res.add(self.rule, f"{self.key}::{what}{suffix} {short(canon_gen(g, {}, 0))}", False, f"{what}: `{short(canon_gen(g, {}, 0), 300)}` raises inside the loop: the remaining elements are never processed", self.where, kind="dominance")
             for text in exp_gens:
                 ok = text not in missing
                 construct = f"{self.key}::{what}{suffix} {short(text)}"
